@@ -785,3 +785,47 @@ V("c19-temporary-dropped-from-create", A, ["C19", "C12"], "C19.e",
                 elif isinstance(p, exp.TemporaryProperty):
                     continue
                 else:"""))
+
+# ---------------------------------------------------------------- batches 9-11 rules
+V("c05-arraysize-default-two", A, "C05", "C05.g", ("cursor", "        self._arraysize = 1\n", "        self._arraysize = 2\n"))
+V("c05-sqlstate-not-initialised", A, "C05", "C05.g", ("cursor", "        self._sqlstate = None\n        self._arraysize = 1", "        self._arraysize = 1"))
+V("c04-if-exists-lost-in-drop-schema", A, "C04", "C04.k",
+  ("transforms", """    new = expression.copy()
+    new.args["cascade"] = True
+    return new""", """    return exp.Drop(this=expression.this, kind=kind, cascade=True)"""))
+V("c12-when-condition-unnested", A, "C12", "C12.k",
+  ("transforms_merge", """        condition = w.args.get("condition")
+
+        if matched:""", """        condition = w.args.get("condition")
+        condition = condition.unnest() if condition else condition
+
+        if matched:"""))
+V("c12-set-column-name-text", A, "C12", "C12.j",
+  ("transforms_merge", """[f"{e.this.this} = {e.expression.sql()}" for e in then.args.get("expressions", [])]""",
+   """[f"{e.this.name} = {e.expression.sql()}" for e in then.args.get("expressions", [])]"""))
+V("c16-pretty-rendering", A, "C16", "C16.a",
+  ("conn", """self.cursor(cursor_class).execute(e.sql(dialect="snowflake"))""", """self.cursor(cursor_class).execute(e.sql(dialect="snowflake", pretty=True))"""))
+V("c08-json-dumps-before-quote", A, "C08", "C08.a",
+  ("cursor", """            def convert(param: Any) -> Any:  # noqa: ANN401
+                return""", """            def convert(param: Any) -> Any:  # noqa: ANN401
+                if isinstance(param, (dict, list)):
+                    import json
+                    param = json.dumps(param)
+                return"""))
+V("c09-lengths-only-for-tables", A, "C09", "C09.m",
+  ("transforms", """    if isinstance(expression, (exp.Create, exp.Alter)):
+        text_lengths = []""", """    if isinstance(expression, (exp.Create, exp.Alter)) and str(expression.args.get("kind")).upper() == "TABLE":
+        text_lengths = []"""))
+V("c07-describe-on-other-cursor", A, "C07", "C07.b",
+  ("cursor", """        self.execute(describe, *args, **kwargs)
+        rows = self.fetchall()
+        if self._use_dict_result:
+            # the columns of a DESCRIBE result have distinct names, so their order is the dict order
+            rows = [tuple(r.values()) for r in rows]  # pyright: ignore[reportAttributeAccessIssue]
+        return describe_as_result_metadata(rows)""", """        with self._conn.cursor() as cur:
+            cur.execute(describe, *args, **kwargs)
+            return describe_as_result_metadata(cur.fetchall())"""))
+V("c03-describe-unqualified-view", A, "C03", "C03.e",
+  ("transforms", "FROM ${catalog}.information_schema._fs_columns_snowflake", "FROM information_schema._fs_columns_snowflake"))
+V("c03-drop-schema-if-exists-guard", A, "C03", "C03.d",
+  ("checks", """            no_database = not node.args.get("db" if node.args.get("this") else "catalog")""", """            no_database = not node.args.get("catalog")"""))
